@@ -76,6 +76,7 @@ def run(ctx):
     r.count('id_type_entries', n)
     r.floor('id-type-table', 'id_type_entries', n, 16)
     null_vs_empty(ctx)
+    range_limits(ctx)
     # (b) json_id
     rule = 'variant-json-id'
     jb = db.find_bodies(r'^types::variant_json::<impl types::variant::Variant>::json_id$')
@@ -183,3 +184,45 @@ def null_vs_empty(ctx, rule='null-vs-empty'):
             r.fail(rule, short + ':visitor', '%sVisitor: visit_none calls %s, visit_str calls %s - null() must come from JSON null only' % (short, none_calls, str_calls), loc=vn[0].loc)
     r.count('null_empty_sites', n)
     r.floor(rule, 'null_empty_sites', n, 8)
+
+
+def range_limits(ctx, rule='range-limit-matches-type'):
+    """NodeId / ExpandedNodeId deserializers narrow JSON numbers (u64) to the field type after a range test: the bound of
+    that test must be exactly the maximum of the type the value is then cast to (a smaller bound refuses values the
+    serializer writes, a larger one lets the cast wrap)"""
+    r, db = ctx.r, ctx.db
+    MAXV = {'u8': 2 ** 8 - 1, 'u16': 2 ** 16 - 1, 'u32': 2 ** 32 - 1}
+    n = 0
+    for ty in ('types::node_id::NodeId', 'types::expanded_node_id::ExpandedNodeId'):
+        short = ty.rsplit('::', 1)[-1]
+        bs = db.find_bodies(r"^<%s as .*_serde::Deserialize<'de>>::deserialize$" % re.escape(ty))
+        if not bs:
+            r.lost(rule, short, 'Deserialize of %s not found' % short); continue
+        b = bs[0]; F = ctx.facts(b)
+        for bi, blk in enumerate(b.blocks):
+            if blk['c']:
+                continue
+            for si, st in enumerate(blk['s']):
+                if not (st[0] == '=' and st[2][0] == 'cast' and st[2][1] == 'IntToInt' and st[2][3] == 'u64' and st[2][4] in MAXV):
+                    continue
+                op = F.sym_operand(st[2][2])
+                bounds = []
+                for l, e in F.literals_at(bi, si):
+                    if l[0] == 'cmp' and l[2] == op and l[1] in ('le', 'lt'):
+                        try:
+                            bounds.append((l[1], eval_sym(l[3], lambda x: None)))
+                        except NoEval:
+                            pass
+                if not bounds:
+                    continue     # unguarded narrowing: not a range decision (nothing the serializer writes can exceed it)
+                n += 1
+                to = st[2][4]
+                key = '%s:%s#%d' % (short, to, n)
+                good = any((o == 'le' and k == MAXV[to]) or (o == 'lt' and k == MAXV[to] + 1) for o, k in bounds)
+                if good:
+                    r.ok(rule, key, 'value narrowed to %s only under `<= %d`' % (to, MAXV[to]), loc=b.loc)
+                else:
+                    r.fail(rule, key, '%s deserializer narrows a JSON number to %s under the bound %s: not the maximum of %s, so values the serializer writes are refused '
+                           '(or the cast wraps)' % (short, to, bounds, to), loc=b.loc)
+    r.count('range_limits', n)
+    r.floor(rule, 'range_limits', n, 3)
